@@ -1,8 +1,10 @@
 package main
 
 import (
+	"context"
 	"fmt"
 	"strings"
+	"time"
 
 	"encoding/gob"
 
@@ -192,4 +194,78 @@ func c16base() int {
 func init() {
 	runners["C16"] = runC16diff
 	runners["C16inv"] = runC16inv
+}
+
+// ---- C16e2e: arguments of every encodability through a real session
+//
+// case: "<config> ;; <func> <arg> …"   funcs:  E0 <pst|nilpst|nil> <map|nilmap|nil> <ints|nil>   E1 fn   E2 ch
+// observation: "ok rows=…" | "err:…" | "fatal:…" | "hang"
+var (
+	c16E0 = bigslice.Func(func(p *c16St, m map[string]int, xs []int) bigslice.Slice {
+		a := int64(-1)
+		if p != nil {
+			a = int64(p.A)
+		}
+		return bigslice.Const(1, []int64{a}, []int64{int64(100*len(m) + len(xs))})
+	})
+	c16E1 = bigslice.Func(func(f func() int) bigslice.Slice {
+		return bigslice.Const(1, []int64{int64(f())}, []int64{0})
+	})
+	c16E2 = bigslice.Func(func(c chan int) bigslice.Slice {
+		return bigslice.Const(1, []int64{int64(cap(c))}, []int64{0})
+	})
+)
+
+func runC16e2e(c string) string {
+	e2eMu.Lock()
+	defer e2eMu.Unlock()
+	segs := strings.Split(c, ";;")
+	cfg := parseConfig(segs[0])
+	s := startSession(cfg)
+	defer s.close()
+	f := fields(segs[1])
+	var fn *bigslice.FuncValue
+	var args []interface{}
+	switch f[0] {
+	case "E0":
+		fn = c16E0
+		for _, a := range f[1:] {
+			args = append(args, c16arg(a))
+		}
+	case "E1":
+		fn = c16E1
+		args = []interface{}{func() int { return 7 }}
+	case "E2":
+		fn = c16E2
+		args = []interface{}{make(chan int, 3)}
+	}
+	type rr struct {
+		res *exec.Result
+		err error
+	}
+	ch := make(chan rr, 1)
+	ctx := context.Background()
+	go func() {
+		defer func() {
+			if e := recover(); e != nil {
+				ch <- rr{nil, fmt.Errorf("PANIC in Run: %v", e)}
+			}
+		}()
+		res, err := s.sess.Run(ctx, fn, args...)
+		ch <- rr{res, err}
+	}()
+	select {
+	case o := <-ch:
+		if o.err != nil {
+			return errText(o.err)
+		}
+		return "ok " + timedScan(ctx, o.res)
+	case <-time.After(45 * time.Second):
+		dumpStacks("hang")
+		return "hang"
+	}
+}
+
+func init() {
+	runners["C16e2e"] = runC16e2e
 }
